@@ -4,6 +4,7 @@ import (
 	"fmt"
 	"go/types"
 	"strings"
+	"time"
 
 	"golang.org/x/tools/go/ssa"
 
@@ -288,7 +289,37 @@ func coreNatives() map[string]stubFn {
 			return sym.Var(m.freshName("timestr"), sym.StrSort)
 		},
 		"(time.Duration).String": func(m *Machine, c *frame, fn *ssa.Function, a []Value) Value {
-			return sym.UF("uf_durstr", sym.StrSort, m.term(a[0]))
+			d := m.term(a[0])
+			if d.Const {
+				return sym.Str(time.Duration(d.SInt()).String())
+			}
+			t := sym.UF("uf_durstr", sym.StrSort, d)
+			// Duration.String and time.ParseDuration are an inverse pair; never empty
+			m.assertPC(sym.Not(sym.Eq(t, sym.Str(""))))
+			m.assertPC(sym.UF("uf_dur_ok", sym.BoolSort, t))
+			m.assertPC(sym.Eq(sym.UF("uf_dur_val", sym.BV(64), t), d))
+			return t
+		},
+		"time.ParseDuration": func(m *Machine, c *frame, fn *ssa.Function, a []Value) Value {
+			s := m.term(a[0])
+			if s.Const {
+				d, err := time.ParseDuration(s.S)
+				if err != nil {
+					return Tuple{sym.BVConst(64, 0), m.newErrorString(sym.Str(err.Error()))}
+				}
+				return Tuple{sym.BVConst(64, uint64(d)), Iface{}}
+			}
+			constLeaves(s, func(cst *sym.Term) {
+				d, err := time.ParseDuration(cst.S)
+				m.assertPC(sym.Eq(sym.UF("uf_dur_ok", sym.BoolSort, cst), sym.Bool(err == nil)))
+				if err == nil {
+					m.assertPC(sym.Eq(sym.UF("uf_dur_val", sym.BV(64), cst), sym.BVConst(64, uint64(d))))
+				}
+			})
+			if m.branch(sym.UF("uf_dur_ok", sym.BoolSort, s)) {
+				return Tuple{sym.UF("uf_dur_val", sym.BV(64), s), Iface{}}
+			}
+			return Tuple{sym.BVConst(64, 0), m.newErrorString(sym.Var(m.freshName("durerr"), sym.StrSort))}
 		},
 
 		// ---- misc runtime
